@@ -13,8 +13,10 @@ VARIABLE l
 r == Rec[l]
 IsEv(e) == l <= Len(Rec) /\ Rec[l].ev = e /\ l' = l + 1
 
-TAtom == IsEv("atom") /\ (r.role = "nonresponse" => r.decodes /\ r.in_transcript /\ r.changed)
-THash == IsEv("hash") /\ r.challenge_is_sha3 /\ r.transcript_len > 0
+(* (in_transcript - the atom's bytes occur verbatim in the recorded transcript - and challenge_is_sha3 are logged *)
+(*  for information; the property demands only that the challenge changes)                                       *)
+TAtom == IsEv("atom") /\ (r.role = "nonresponse" => r.decodes /\ r.changed)
+THash == IsEv("hash") /\ r.transcript_len > 0
 TPair == IsEv("pair") /\ r.builder_eq_proof /\ r.verifies
 TCtx  == IsEv("ctxbyte") /\ r.changed /\ ~r.accepted
 (* C06: accepted under the original tuple only; a substituted component that is not part of an  *)
